@@ -189,6 +189,8 @@ def m_isinstance(x, t):
 
 
 def _join(sep, it):
+    if getattr(it, "_pyvc_symbolic", False) and hasattr(it, "_pyvc_elem"):
+        return _abs_join(sep, it)
     items = _b.list(it)
     if _b.isinstance(sep, KRecv):
         sep = sep.v
@@ -203,6 +205,21 @@ def _format(s, *a, **k):
             raise Undecided("text formatting of a symbolic value")
         return "<sym>"
     return s.format(*a, **k)
+
+
+def _abs_join(sep, it):
+    """b"".join(abstract sequence of byte strings) = BigConcat of the elements"""
+    from .rope import bigcat, BC
+    if _b.isinstance(sep, KRecv):
+        sep = sep.v
+    if _b.len(sep) != 0:
+        raise Undecided("join of an abstract sequence with a non-empty separator")
+    n = it._pyvc_len()
+    J = BC.J
+    probe = Rope.of(it._pyvc_elem(J))
+    name = "join|" + probe.key()
+    return bigcat(name, 0, n, lambda j: Rope.of(it._pyvc_elem(_t(j))),
+                  lambda j: Rope.of(it._pyvc_elem(_t(j))).length_term())
 
 
 class KRecv:
